@@ -25,17 +25,17 @@ type Case struct {
 }
 
 type Ctx struct {
-	Seed  int64
-	Tier  string
-	Only  int
-	Repo  string
-	Dir   string
+	Seed   int64
+	Tier   string
+	Only   int
+	Repo   string
+	Dir    string
 	Script string
-	Rng   *rand.Rand
-	out   *bufio.Writer
-	mu    sync.Mutex
-	n     int
-	Stats map[string]int
+	Rng    *rand.Rand
+	out    *bufio.Writer
+	mu     sync.Mutex
+	n      int
+	Stats  map[string]int
 }
 
 func (c *Ctx) Thorough() bool { return c.Tier == "thorough" }
@@ -86,10 +86,10 @@ func (c *Ctx) Close() {
 
 // ---------- Gallina rendering ----------
 
-func cZ(v int64) string       { return fmt.Sprintf("(%d)%%Z", v) }
-func cBig(v *big.Int) string  { return fmt.Sprintf("(%s)%%Z", v.String()) }
-func cN(v int) string         { return fmt.Sprintf("%d%%N", v) }
-func cNat(v int) string       { return fmt.Sprintf("%d%%nat", v) }
+func cZ(v int64) string      { return fmt.Sprintf("(%d)%%Z", v) }
+func cBig(v *big.Int) string { return fmt.Sprintf("(%s)%%Z", v.String()) }
+func cN(v int) string        { return fmt.Sprintf("%d%%N", v) }
+func cNat(v int) string      { return fmt.Sprintf("%d%%nat", v) }
 func cBool(b bool) string {
 	if b {
 		return "true"
